@@ -7,11 +7,13 @@
      max_duration : noisy_samples.max_duration.
    Output = the columns (one list per kept qubit, one entry per time step) of omega, delta, phi
    (their real parts; the source casts to complex128 with zero imaginary part).
-   Two switches describe the two findings of C22; the model of the source as it is today is
-   [extract] = [extract_with false false]:
-     all_rows  : clamp every amplitude row at 0 (false: only the last row, as in the source today)  F-09
-     all_atoms : one column per register atom, zero for atoms no channel addresses
-                 (false: columns only for addressed atoms, as in the source today)                  F-05
+   Two switches: the model of the call made by PulserData.get_sequences today is
+   [extract] = [extract_with true true]:
+     all_rows  : clamp every amplitude row at 0 (false = before the fix of F-09, /repo 085d359: only the
+                 last row was clamped)
+     all_atoms : the keyword all_register_atoms of the source (fix of F-05, /repo 8603313): true = one
+                 column per register atom, zero for atoms no channel addresses (what get_sequences
+                 passes); false = the keyword's default, columns only for addressed atoms
    No proofs here. *)
 From Coq Require Import ZArith List Bool.
 From EV Require Import Base.Arith Model.Pchip.
@@ -102,8 +104,8 @@ Definition extract_with (all_rows all_atoms : bool) (samples : list (Z * sample_
     res_bind (quantity all_rows all_atoms samples qubit_ids grid tmid sel_phase false) (fun ph =>
     Ok (om, de, ph)))).
 
-(* THE MODEL OF THE SOURCE AS IT IS TODAY (bit-exact correspondence in ./check C22).
-   After the fix of F-09 set the first flag to true, after the fix of F-05 the second. *)
-Definition extract := extract_with false false.
+(* THE MODEL OF THE SOURCE AS IT IS TODAY, called as get_sequences calls it
+   (bit-exact correspondence in ./check C22, also for the keyword's default [extract_with true false]). *)
+Definition extract := extract_with true true.
 
 End Extract.
